@@ -332,6 +332,20 @@ func c13TwinCheck(tc *c13TwinCase, st *vfkit.Stats) (v *vfkit.Violation, labels 
 	_ = rejErr
 	labels = append(labels, "rejected:"+tc.Kind)
 	nt = true
+	// a difference is believed only if both twins keep reproducing themselves
+	confirm := func() bool {
+		for i := 0; i < 3; i++ {
+			b2, f2, _, _, _ := traceOf(&a, tc.Pos)
+			a2, fa2, _, _, _ := traceOf(&a, -1)
+			if fmt.Sprint(b1) != fmt.Sprint(b2) || len(diffMaps(f1, f2)) > 0 || fmt.Sprint(as) != fmt.Sprint(a2) || len(diffMaps(fa, fa2)) > 0 {
+				if st != nil {
+					st.SelfCheckFailed()
+				}
+				return false
+			}
+		}
+		return true
+	}
 	kindSig := tc.Kind
 	if pendingAtInjection {
 		// the revert to the configuration in effect pushes what an earlier failed
@@ -348,12 +362,18 @@ func c13TwinCheck(tc *c13TwinCase, st *vfkit.Stats) (v *vfkit.Violation, labels 
 			continue
 		}
 		if as[idx] != b1[idx] {
+			if !confirm() {
+				return nil, append(labels, "self-check-failed"), false
+			}
 			return viol(c13, "a rejected update leaves all subsequent allocation decisions identical to never having received it",
 				"subsequent-decisions-differ:"+tc.Case.Policy+":"+kindSig,
 				"step %d after the rejected update: with it %q, without it %q", idx, as[idx], b1[idx]), labels, nt
 		}
 	}
 	if d := diffMaps(f1, fa); len(d) > 0 {
+		if !confirm() {
+			return nil, append(labels, "self-check-failed"), false
+		}
 		return viol(c13, "a rejected update leaves assignments and advertised capacities identical to never having received it",
 			"final-state-differs:"+tc.Case.Policy+":"+kindSig, "%v", d), labels, nt
 	}
@@ -379,6 +399,16 @@ func c13GenTwin(t *rapid.T, policy string) *c13TwinCase {
 	} else {
 		base = genBalloonsCase(t, genOpts{Policy: polBalloons, MinOps: 6, MaxOps: 24, FillPools: true})
 		kinds = rejKindsBln
+		// (balloons Synchronize re-admits containers of equal creation time in map
+		// order, too: seen as twins that reproduce themselves three times and differ
+		// the fourth; no Synchronize in twin histories of either policy)
+		ops := []hcOp{}
+		for _, op := range base.Ops {
+			if op.Kind != "sync" {
+				ops = append(ops, op)
+			}
+		}
+		base.Ops = ops
 	}
 	// the kinds rejected late (after the policy has started to rebuild its state)
 	// are the ones whose rollback can go wrong: draw them as often as all others together
